@@ -46,7 +46,7 @@ def rule_accept(ctx):
     ctx.floor(eff, 8, "effects in _proc_fetch_request")
     send = ctx.one([n for n in c.nodes if n.kind == "await" and isinstance(n.ast, ast.Await) and isinstance(n.ast.value, ast.Call) and call_attr(n.ast.value) == "send"], "await client.send")
     act = [t for t in c.nodes if t.kind == "test" and unparse(t.ast) == "assignment.active"]
-    ctx.ob(R, fi, send, len(act) == 1 and c.dominates(send, act[0]), "assignment liveness is not re-tested after the fetch returned", text="active-test")
+    ctx.ob(R, fi, send, len(act) == 1 and c.path_exists(send, act[0]) and not c.path_exists(act[0], send), "assignment liveness is not re-tested after the fetch returned", text="active-test")
     valid = [t for t in c.nodes if t.kind == "test" and unparse(t.ast) == "tp_state.has_valid_position"]
     same = [t for t in c.nodes if t.kind == "test" and isinstance(t.ast, ast.Compare) and len(t.ast.ops) == 1 and
             {unparse(t.ast.left), unparse(t.ast.comparators[0])} == {"tp_state.position", "fetch_offset"}]
@@ -418,6 +418,21 @@ def rule_seek_drop(ctx):
         c = ctx.cfg(fi)
         dels = [n for n in c.nodes if n.kind == "delete" and isinstance(n.ast, ast.Subscript) and unparse(n.ast.value) == "self._records"]
         tests = [t for t in c.nodes if t.kind == "test" and isinstance(t.ast, ast.Compare) and isinstance(t.ast.ops[0], ast.In) and unparse(t.ast.comparators[0]) == "self._records"]
+        # the unconditional spelling: self._records.pop(tp, None)
+        pops = [n for n in c.nodes if n.kind == "call" and call_attr(n.ast) == "pop" and unparse(n.ast.func.value) == "self._records" and len(n.ast.args) == 2
+                and isinstance(n.ast.args[1], ast.Constant) and n.ast.args[1].value is None]
+        via_pop = not dels and not tests and len(pops) == 1
+        if via_pop:
+            key = unparse(pops[0].ast.args[0])
+            if m == "seek_to":
+                okp = key == fi.params()[1] and c.exit not in c.reachable([c.entry], avoid=set(pops), exc=False)
+            else:
+                la = c.enclosing(pops[0], types=(ast.For,), role="body")
+                okp = bool(la) and unparse(la[0][0].iter) == fi.params()[1] and unparse(la[0][0].target) == key
+                if okp:
+                    nxt = [n for n in c.nodes if n.kind == "fornext" and n.ast is la[0][0]][0]
+                    okp = c.loop_head(la[0][0]) not in c.reachable([x for x, l in nxt.succ if l == "T"], avoid=set(pops), exc=False, include_src=True)
+            ctx.ob(R, fi, fi.node, okp, f"{m}: buffered records of the partition survive the position change", text=f"{m}:drops-buffer")
         ok = len(dels) == 1 and len(tests) == 1 and c.dominated_by_branch(tests[0], "T", dels[0]) and unparse(dels[0].ast.slice) == unparse(tests[0].ast.left)
         if ok:
             ts = [x for x, l in tests[0].succ if l == "T"]
@@ -432,7 +447,8 @@ def rule_seek_drop(ctx):
                 if ok:
                     nxt = [n for n in c.nodes if n.kind == "fornext" and n.ast is la[0][0]][0]
                     ok = c.loop_head(la[0][0]) not in c.reachable([x for x, l in nxt.succ if l == "T"], avoid=set(tests), exc=False, include_src=True)
-        ctx.ob(R, fi, fi.node, ok, f"{m}: buffered records of the partition survive the position change", text=f"{m}:drops-buffer")
+        if not via_pop:
+            ctx.ob(R, fi, fi.node, ok, f"{m}: buffered records of the partition survive the position change", text=f"{m}:drops-buffer")
         nt = [n for n in c.calls(attr="_notify") if unparse(arg_of(n.ast, 0)) == "self._wait_consume_future"]
         ctx.ob(R, fi, fi.node, len(nt) >= 1 and c.exit not in c.reachable([c.entry], avoid=set(nt), exc=False), f"{m}: fetch loop is not woken", text=f"{m}:wakes")
     fi = ctx.fn(f"{FETCHER}.seek_to")
